@@ -653,7 +653,10 @@ class Gen:
             if self.coin(0.15):
                 return Opt(self.tight_choice(mode, consumed))
             if self.coin(0.3):
-                return Opt(Cho([Seq([self.single_item(mode, consumed)])]))  # ['b']  [x:Item]  ['a'..'z']
+                it = self.single_item(mode, consumed)
+                if self.coin(0.3):
+                    it = Grp(Cho([Seq([it])])) if self.coin(0.6) else Grp(self.tight_choice(mode, consumed, nest=False))  # [('c')]  [('a' | 'b')]
+                return Opt(Cho([Seq([it])]))  # ['b']  [x:Item]  ['a'..'z']
             return Opt(self.cho(depth - 1, mode, consumed))
         if x < 0.77:
             if mode == "named" and self.coin(self.p.get("p_nested_field_closure", 0.12)):
@@ -670,7 +673,10 @@ class Gen:
                     body = Seq([Ref(t, f), Clo(Cho([Seq([Lit(self.r.choice(["|", ","])), Ref(t, f)])])), Lit(";")])
                 return Clo(Cho([body]), self.coin(0.4))
             if self.coin(0.3):
-                return Clo(Cho([Seq([self.single_item(mode, consumed, nonnull=True)])]), self.coin(0.35))  # {'b'}  {x:Item}+
+                it = self.single_item(mode, consumed, nonnull=True)
+                if self.coin(0.3):
+                    it = Grp(Cho([Seq([it])]))  # {('b')}+  {(x:Item)}
+                return Clo(Cho([Seq([it])]), self.coin(0.35))  # {'b'}  {x:Item}+
             return Clo(self.nonnull_cho(depth - 1, mode, consumed), self.coin(0.35))
         if x < 0.84:
             return Grp(self.cho(depth - 1, mode, consumed))
